@@ -248,6 +248,12 @@ class Check:
         def write_replay(obj):
             nonlocal n
             os.makedirs(rdir, exist_ok=True)
+            try:    # diagnostic only: name the functions of the package that differ from the fingerprinted tree
+                sys.path.insert(0, os.path.join(ROOT, "tools"))
+                import anchors
+                obj["functions_changed_since_fingerprint"] = anchors.changed(REPO)
+            except Exception:
+                pass
             path = os.path.join(rdir, f"{self.tier}-{self.seed}-{n}.json")
             n += 1
             with open(path, "w") as f:
